@@ -175,7 +175,7 @@ EndOf(cls) == IF cls = "PVLGroup" THEN S("END_GROUP") ELSE S("END_OBJECT")
 Build ==
    \/ Assign(CanonName, One, FALSE) /\ Same
    \/ \E semi \in BOOLEAN : AssignMissing(CanonName, semi) /\ Same
-   \/ Profile = "missing" /\ ~varied /\ varied' = TRUE                          \* one statement per label with a name that is not a plain identifier
+   \/ Profile = "missing" /\ MaxStmts <= 3 /\ ~varied /\ varied' = TRUE        \* one statement per label with a name that is not a plain identifier
       /\ \E nm \in NamesMissing : (Assign(nm, One, FALSE) \/ AssignMissing(nm, FALSE))
    \/ \E x \in Vuse, semi \in BOOLEAN : Assign(S("a"), x, semi) /\ Vary
    \/ \E nm \in NamesFull : Assign(nm, Qs, FALSE) /\ Vary
